@@ -210,7 +210,7 @@ func (r *Reuse) DoBody(app *fiber.App, method, uri string, body []byte, hdr ...s
 	if body != nil {
 		req.SetBody(body)
 	}
-	r.ctx.Response.Reset() // keeps the body buffer, as the server does between two requests of a connection
+	r.ctx.Response.Reset()  // keeps the body buffer, as the server does between two requests of a connection
 	r.ctx.ResetUserValues() // ... and it drops the user values (Locals) of the previous request
 	r.ctx.Init(&req, &net.TCPAddr{IP: net.IPv4(10, 0, 0, 9), Port: 1234}, nil)
 	app.Handler()(r.ctx)
